@@ -180,8 +180,13 @@ def r08_2(ctx, rid="R08.2"):
                                 why = "the root is overwritten without having been swapped out"
                             elif ty.startswith("proj:") and ("Node<V>" in ty or "Leaf<V>" in ty):
                                 # a field of self: only the regex handle may be dropped
-                                ok = x[0] == "field" and x[2] == "regex"
+                                # (or a container field whose content was taken out with mem::take / replace before)
+                                taken = lambda fld: any(b[0] == "call" and b[1] in ("std::mem::take", "std::mem::replace") and b[2] and b[2][0][0] == "field" and b[2][0][2] == fld for b in before)
+                                ok = x[0] == "field" and (x[2] == "regex" or taken(x[2]))
                                 why = "a field of the node other than its regex is dropped"
+                            elif ty.startswith(NODE) and any(b[0] == "call" and b[1] in ("std::mem::take", "std::mem::replace") and b[2] and b[2][0][0] == "field" and b[2][0][2] == "children" for b in before):
+                                ok = True  # the node is dropped after its children were taken out of it: only the regex handle goes
+                                why = ""
                             else:
                                 why = "a value of type %s is dropped" % ty
                             if not ok:
